@@ -728,3 +728,14 @@ pub fn run_forms_here(forms: &[String], budget: Option<Budget>) -> Vec<(Outcome,
     }
     out
 }
+
+/// shorten a string to at most `max` bytes without cutting a character in two
+pub fn truncate_chars(s: &mut String, max: usize) {
+    if s.len() > max {
+        let mut k = max;
+        while !s.is_char_boundary(k) {
+            k -= 1;
+        }
+        s.truncate(k);
+    }
+}
